@@ -204,6 +204,149 @@ fn c11_received(prog: &crate::bddmodel::Program, st: &mut Stats) -> CheckResult 
     Ok(Outcome::Ok)
 }
 
+
+// ------------------------------------------------------------------------------------------
+// C11, histories on one biodivine-backed object
+
+#[derive(Clone, Debug, Serialize, Deserialize, Hash)]
+pub enum BioCall {
+    Grounded,
+    Complete,
+    Stable,
+    StableRepr,
+    /// `hybrid_step_opt(pre)` on the used object, then one call on the resulting native object
+    Hybrid(bool, u8),
+    /// `Adf::from_biodivine` on the used object, then one call
+    FromBio(u8),
+    /// `stable_bdd_representation(&self)` of a native object built from the same parser
+    NativeRepr,
+    /// print the grounded interpretation and the dictionary through the object's printers
+    Print,
+}
+
+#[derive(Clone, Debug, Serialize, Deserialize)]
+pub struct BioHistCase {
+    pub sem: SemCase,
+    pub rewrite: bool,
+    pub calls: Vec<BioCall>,
+}
+
+const FOLLOW: [Call; 8] = [
+    Call::Grounded,
+    Call::Complete,
+    Call::Stable,
+    Call::StablePrefilter,
+    Call::CountA,
+    Call::CountB,
+    Call::StableNg(1),
+    Call::TwoValNg(0),
+];
+
+fn bio_exec(b: &adf_bdd::adfbiodivine::Adf, p: &adf_bdd::parser::AdfParser, call: &BioCall) -> Result<(Raw, Option<Call>, String), String> {
+    let ri = |v: Vec<Vec<Term>>| Raw::Interps(v.into_iter().map(|i| i.into_iter().map(|t| t.value()).collect()).collect());
+    Ok(match call {
+        BioCall::Grounded => (ri(vec![b.grounded()]), Some(Call::Grounded), String::new()),
+        BioCall::Complete => (ri(b.complete().collect()), Some(Call::Complete), String::new()),
+        BioCall::Stable => (ri(b.stable().collect()), Some(Call::Stable), String::new()),
+        BioCall::StableRepr => (ri(b.stable_bdd_representation()), Some(Call::Stable), String::new()),
+        BioCall::Hybrid(pre, k) => {
+            let mut a = b.hybrid_step_opt(*pre);
+            let c = FOLLOW[*k as usize % FOLLOW.len()].clone();
+            (calls::exec(&mut a, &c)?, Some(c), String::new())
+        }
+        BioCall::FromBio(k) => {
+            let mut a = Adf::from_biodivine(b);
+            let c = FOLLOW[*k as usize % FOLLOW.len()].clone();
+            (calls::exec(&mut a, &c)?, Some(c), String::new())
+        }
+        BioCall::NativeRepr => {
+            let mut a = Adf::from_parser(p);
+            (ri(a.stable_bdd_representation(b)), Some(Call::Stable), String::new())
+        }
+        BioCall::Print => {
+            let g = b.grounded();
+            let txt = format!("{}", b.print_interpretation(&g));
+            (ri(vec![g]), Some(Call::Grounded), txt)
+        }
+    })
+}
+
+fn c11_bio(c: &BioHistCase, st: &mut Stats) -> CheckResult {
+    use adf_bdd::adfbiodivine::Adf as BdAdf;
+    let text = c.sem.adf.text();
+    let build = |p: &adf_bdd::parser::AdfParser| if c.rewrite { BdAdf::from_parser_with_stm_rewrite(p) } else { BdAdf::from_parser(p) };
+    let res = sut::with_parser(&text, c.sem.sort, |p| -> Result<usize, String> {
+        let names: Vec<String> = p.var_container().names().read().unwrap().clone();
+        let perm = sut::perm_from_names(&names, &c.sem.adf.labels)?;
+        let hist = build(p);
+        let twin = build(p);
+        let mut kinds = std::collections::HashSet::new();
+        for (i, call) in c.calls.iter().enumerate() {
+            let before = || c.calls[..i].iter().map(|c| format!("{c:?}")).collect::<Vec<_>>();
+            let (raw, sem, txt) = bio_exec(&hist, p, call).map_err(|e| format!("call {i} {call:?}: {e}"))?;
+            let (raw2, _, txt2) = bio_exec(&twin, p, call)?;
+            if raw != raw2 || txt != txt2 {
+                return Err(format!("determinism: call {i} {call:?} returned {raw:?} on one biodivine-backed object and {raw2:?} on an identically built one with the same history"));
+            }
+            let fresh = build(p);
+            let (rawf, _, txtf) = bio_exec(&fresh, p, call)?;
+            let o_hist = calls::abstract_raw(&raw, false);
+            let o_fresh = calls::abstract_raw(&rawf, false);
+            if o_hist != o_fresh || txt != txtf {
+                return Err(format!(
+                    "call {i} {call:?} on a biodivine-backed object after history {:?} answered {o_hist:?} {txt:?} (in this order) but a freshly built object answers {o_fresh:?} {txtf:?}",
+                    before()
+                ));
+            }
+            if let (Some(sc), Abs::Interps(got)) = (&sem, calls::abstract_raw(&raw, true)) {
+                if let Some(exp) = calls::expected_logical(&c.sem.adf.acs, sc) {
+                    let mut got_l: Vec<_> = got.iter().map(|g| sut::to_logical(&perm, g)).collect::<Result<_, _>>()?;
+                    got_l.sort();
+                    if got_l != exp {
+                        return Err(format!(
+                            "call {i} {call:?} on a biodivine-backed object after history {:?} answered {} but the definition gives {}",
+                            before(),
+                            crate::oracle::show_set(&got_l),
+                            crate::oracle::show_set(&exp)
+                        ));
+                    }
+                }
+            }
+            kinds.insert(std::mem::discriminant(call));
+        }
+        Ok(kinds.len())
+    });
+    let kinds = match res {
+        Err(e) => return Err(format!("well-formed input rejected: {e}")),
+        Ok(Err(e)) => return Err(e),
+        Ok(Ok(x)) => x,
+    };
+    for call in &c.calls {
+        let s = format!("{call:?}");
+        st.label(&format!("biocall:{}", s.split('(').next().unwrap_or("")));
+    }
+    if c.calls.len() >= 3 && kinds >= 2 {
+        st.nontrivial(stable_hash(&(case_hash(&c.sem), &c.calls, c.rewrite)), || {
+            json!({"text": text, "rewrite": c.rewrite, "history": c.calls.iter().map(|c| format!("{c:?}")).collect::<Vec<_>>()})
+        });
+    }
+    Ok(Outcome::Ok)
+}
+
+fn bio_call_strategy() -> BoxedStrategy<BioCall> {
+    prop_oneof![
+        3 => Just(BioCall::Grounded),
+        3 => Just(BioCall::Complete),
+        3 => Just(BioCall::Stable),
+        3 => Just(BioCall::StableRepr),
+        3 => (any::<bool>(), 0u8..8).prop_map(|(p, k)| BioCall::Hybrid(p, k)),
+        2 => (0u8..8).prop_map(BioCall::FromBio),
+        2 => Just(BioCall::NativeRepr),
+        1 => Just(BioCall::Print),
+    ]
+    .boxed()
+}
+
 pub fn c11(tier: Tier) -> PropSpec {
     PropSpec {
         id: "C11",
@@ -228,7 +371,17 @@ pub fn c11(tier: Tier) -> PropSpec {
             },
             c11_check,
         ),
-        Part::new("received-store", tier.pick(15000, 150000), || crate::bddmodel::program(6, 30, false), c11_received)],
+        Part::new("received-store", tier.pick(15000, 150000), || crate::bddmodel::program(6, 30, false), c11_received),
+        Part::new(
+            "bio-histories",
+            tier.pick(12000, 120000),
+            || {
+                (sem_case(1, 6), any::<bool>(), proptest::collection::vec(bio_call_strategy(), 1..9))
+                    .prop_map(|(sem, rewrite, calls)| BioHistCase { sem, rewrite, calls })
+                    .boxed()
+            },
+            c11_bio,
+        )],
     }
 }
 
